@@ -81,8 +81,14 @@ func (dc *DocumentChunker) chunkPage(page *model.Page, docTitle string, currentS
 	var currentBlock textBlock
 	currentBlock.pageNum = page.Number
 
+	// The paragraphs of the current block; they are joined when the block is
+	// flushed (appending to one string would copy it for every paragraph)
+	var blockParts []string
+
 	// Helper to flush current text block as chunks
 	flushTextBlock := func() {
+		currentBlock.text = strings.Join(blockParts, "\n\n")
+		blockParts = nil
 		if currentBlock.text != "" {
 			blockChunks := dc.textBlockToChunks(currentBlock, docTitle, chunkIndex)
 			chunks = append(chunks, blockChunks...)
@@ -106,11 +112,10 @@ func (dc *DocumentChunker) chunkPage(page *model.Page, docTitle string, currentS
 				chunk := dc.createHeadingChunk(e.Text, docTitle, *currentSection, headingLevel, page.Number, chunkIndex)
 				chunks = append(chunks, chunk)
 			} else {
-				// Accumulate text
-				if currentBlock.text != "" {
-					currentBlock.text += "\n\n"
+				// Accumulate text (empty paragraphs before the first text add nothing)
+				if len(blockParts) > 0 || e.Text != "" {
+					blockParts = append(blockParts, e.Text)
 				}
-				currentBlock.text += e.Text
 				currentBlock.sectionPath = append([]string{}, *currentSection...)
 				currentBlock.elementTypes = appendUnique(currentBlock.elementTypes, "paragraph")
 			}
